@@ -164,7 +164,7 @@ func (x *Exec) staticCall(st *State, fr *Frame, fn *ssa.Function, args []Value, 
 			}
 		}
 		x.inlined[name] = true
-		outs := x.execFunc(st, fn, args, free, fr.depth+1, false)
+		outs := x.execFunc(st, fn, args, free, fr.depth+1, false, fr)
 		return outs
 	}
 	return x.unknownCall(c)
@@ -830,7 +830,7 @@ func (x *Exec) toSV(st *State, v Value) (SV, bool) {
 		if tv, ok := cur.(TV); ok {
 			return SV{T: tv.T, Ty: tv.Ty}, true
 		}
-	case SliceRef, MapRef:
+	case SliceRef, MapRef, ByteView:
 		tv := x.asTV(st, t)
 		return SV{T: tv.T, Ty: tv.Ty}, true
 	case IfaceV:
